@@ -484,6 +484,16 @@ func judge(cr *caseRun, ans []string) {
 				continue
 			}
 		}
+		if dbg := os.Getenv("VERIF_DEBUG"); dbg != "" {
+			fs := []string{}
+			for f := range feats {
+				fs = append(fs, f)
+			}
+			sort.Strings(fs)
+			if strings.Join(fs, ",") == strings.TrimPrefix(dbg, "=") {
+				fmt.Fprintf(os.Stderr, "DBG %s %s | %v | got %s | want %s\n", r.entry, cr.text, cr.replayOf(nil)["targets_jsonpath"], r.res, exp)
+			}
+		}
 		add("violation", "callbacks:"+entryClass(r.entry)+":"+dc, "callbacks differ from parse-then-locate: "+dc, cr.replayOf(info))
 	}
 }
